@@ -399,6 +399,9 @@ pub fn c09(opts: &Opts) -> Report {
 
 pub fn c10(opts: &Opts) -> Report {
     let mut rep = Report::new("C10");
+    if want(opts, "extreme") && !cfg!(miri) {
+        crate::props::c08::extreme_cases(&mut rep, opts, "C10", "extreme");
+    }
     let to = timer_opts(opts);
     // Cancellations of *other* actions are kept: a periodic series must be
     // unaffected by them (a cancelled action at the head of the queue is what
